@@ -246,6 +246,21 @@ def c05(res):
         out.append(gg.base_cfg("ondemand", 2, light=True, market_log=True, watchdog_ms=60000))
         return out
     runs, cov2 = checker_runs(res, "C05", graphs, cfgs, ["joined", "edges", "subset", "once", "complete", "verdicts", "stop_reason"], wd, "f4")
+    # insert-if-absent arbitration: a ladder whose two rails are walked side by side by two workers (rendezvous in
+    # next_state), every join state being generated by both at the same moment; evaluations are counted by the model
+    L = 1200
+    ladder = dict(id="F4-ladder", family="ladder", n=3 * L, init=[1, L + 1], succ=[], inb=[], params=[L], poison=0, rep=[], props=big_props(rng))
+
+    def lcfgs(i, g):
+        return [gg.base_cfg(s_, t, no_visitor=True, watchdog_ms=60000) for s_ in ("dfs", "bfs") for t in (2, 3) for _ in range(2 if q else 5)] + \
+               [gg.base_cfg("dfs", 1, no_visitor=True, watchdog_ms=60000)]
+    checker_runs(res, "C05", [ladder], lcfgs, ["joined", "evals_once"], wd, "ladder")
+    lp = os.path.join(wd, "ladder.ndjson")
+    write_ndjson(lp, [ladder])
+    r = run_tlc("MCGraph.tla", "cfg/MCGraphCount.cfg", env=dict(GRAPHS=lp), timeout=900, name="mcgraph-ladder")
+    res.add_tlc(r, "MCGraph[ladder]")
+    if not r["ok"] or r["distinct"] != ladder["n"]:
+        raise ToolError("TLC's exploration of the ladder graph found %d states, expected %d" % (r["distinct"], ladder["n"]))
     # stop reasons: finish condition, target, panic in model code
     g2 = []
     for g in graphs[:2 if q else 6]:
